@@ -206,7 +206,7 @@ def run(ctx):
     good = [r for r in recs if ver[r['id']]['ok'] and 4 <= r['cx'] <= 16 and 4 <= r['cy'] <= 16 and not (r.get('cog_nan') or [False])[-1]][:6]
     bad = []
     for k, r in enumerate(good):
-        r2 = json.loads(json.dumps(r)); r2['id'] = 10**9 + k
+        r2 = core.jcopy(r); r2['id'] = 10**9 + k
         r2['cog_flux'][-1] += 70000 if r2['kind'] != 'center' else 1
         bad.append(r2)
     if bad:
